@@ -31,6 +31,7 @@ import (
 	auto "github.com/kardiachain/go-kardia/lib/autofile"
 	"github.com/kardiachain/go-kardia/lib/common"
 	"github.com/kardiachain/go-kardia/lib/merkle"
+	kos "github.com/kardiachain/go-kardia/lib/os"
 	"github.com/kardiachain/go-kardia/lib/p2p"
 	kcons "github.com/kardiachain/go-kardia/proto/kardiachain/consensus"
 	kproto "github.com/kardiachain/go-kardia/proto/kardiachain/types"
@@ -733,6 +734,9 @@ func (c *c15Case) addEntry(p []byte) c15Entry {
 	}
 	c.table[k] = e
 	c.tabOrd = append(c.tabOrd, k)
+	if e.ok && !bytes.Equal(e.reser, p) {
+		c.addEntry(e.reser) // repairWalFile writes the re-marshalled payload: the second pass reads that one
+	}
 	return e
 }
 
@@ -1016,9 +1020,76 @@ func (c *c15Case) run(tier string) {
 		c.op("T", "t "+c15GroupObs(grp))
 	}
 	flushed := true
+	started := false
+	restarts := 0
+	curLimit := limit
+	// Stop the WAL and start a new BaseWAL on the same files, as a node restart does: the real Start
+	// runs OnStart, which writes EndHeightMessage{0} with WriteSync whenever the head file is empty.
+	restart := func() {
+		if started {
+			wal.Stop()
+		} else {
+			grp.FlushAndSync()
+			grp.Close()
+		}
+		grp.Head.Close()
+		nw, err := NewWAL(walPath, auto.GroupHeadSizeLimit(curLimit), auto.GroupCheckDuration(time.Hour))
+		if err != nil {
+			o.Fail(c.step, "harness-newwal", err.Error())
+			return
+		}
+		wal = nw
+		grp = wal.Group()
+		wal.enc = NewWALEncoder(&c15Tee{w: grp, frames: &frames})
+		wal.SetFlushInterval(time.Hour)
+		nf := len(frames)
+		serr := wal.Start()
+		started = true
+		restarts++
+		cls := "ok"
+		if serr != nil {
+			cls = "err?"
+			o.Fail(c.step, "start-error", serr.Error())
+		}
+		var payload []byte
+		if len(frames) == nf+1 && len(frames[nf]) >= 8 {
+			payload = frames[nf][8:]
+			e := c.addEntry(payload)
+			w := c15Written{payload: payload, valid: true, eh: e.eh, digest: "ERR"}
+			if e.ok {
+				w.digest = e.digest
+			}
+			if e.eh == nil || *e.eh != 0 {
+				o.Fail(c.step, "start-marker", "OnStart wrote something that is not EndHeightMessage{0}")
+			}
+			c.wr = append(c.wr, w)
+			if g.nextH < 1 {
+				g.nextH = 1
+			}
+			o.Count("restart:marker-written")
+			if grp.MaxIndex() > 0 {
+				o.Mark("restart-on-rotated-empty-head")
+			}
+		} else {
+			pb, _ := WALToProto(EndHeightMessage{0})
+			payload, _ = proto.Marshal(&kcons.TimedWALMessage{Time: time.Now().UTC(), Msg: pb})
+			o.Count("restart:head-not-empty")
+		}
+		flushed = true
+		c.op("RS "+c15Tok(payload), "rs "+cls+" "+c15GroupObs(grp))
+	}
+	if profile != 3 && r.Chance(1, 2) {
+		restart() // the very first start: marker 0 into the empty head
+	}
 	for k := 0; k < nmsg; k++ {
 		if r.Chance(3, 10) {
 			tick()
+			if sz, _ := grp.Head.Size(); sz == 0 && grp.MaxIndex() > 0 && grp.Buffered() == 0 && r.Chance(1, 2) {
+				restart() // the head was rotated away and is empty: the restart marker lands in the newest file
+			}
+		}
+		if profile != 3 && r.Chance(1, 12) {
+			restart()
 		}
 		var m WALMessage
 		var valid bool
@@ -1161,6 +1232,7 @@ func (c *c15Case) run(tier string) {
 				nl = 1
 			}
 			grp.VerifSetHeadSizeLimit(nl)
+			curLimit = nl
 			c.op(fmt.Sprintf("L %d", nl), "")
 			before := grp.MaxIndex()
 			tick()
@@ -1182,6 +1254,11 @@ func (c *c15Case) run(tier string) {
 			}()
 			flushed = true
 			c.op("R", "r "+c15GroupObs(grp))
+		}
+	}
+	if profile != 3 {
+		if sz, _ := grp.Head.Size(); sz == 0 && grp.MaxIndex() > 0 && grp.Buffered() == 0 && r.Chance(2, 3) {
+			restart()
 		}
 	}
 	if r.Chance(4, 5) && !flushed {
@@ -1274,10 +1351,16 @@ func (c *c15Case) run(tier string) {
 			markers = append(markers, *w.eh)
 		}
 	}
+	// what real logs satisfy: the positive markers increase strictly; markers <= 0 (OnStart's
+	// EndHeightMessage{0} on every empty head) may repeat anywhere
 	mono := true
-	for i := 1; i < len(markers); i++ {
-		if markers[i] <= markers[i-1] {
-			mono = false
+	lastPos := int64(0)
+	for _, m := range markers {
+		if m > 0 {
+			if m <= lastPos {
+				mono = false
+			}
+			lastPos = m
 		}
 	}
 	decodable := true
@@ -1287,9 +1370,9 @@ func (c *c15Case) run(tier string) {
 		}
 	}
 	if !mono {
-		o.Count("markers:non-monotone")
+		o.Count("markers:positive-non-monotone")
 	} else {
-		o.Count("markers:monotone")
+		o.Count("markers:positive-monotone")
 	}
 	nsearch := 3
 	if profile == 1 {
@@ -1298,6 +1381,7 @@ func (c *c15Case) run(tier string) {
 	if profile == 3 {
 		nsearch = 1
 	}
+	var heights []int64
 	for k := 0; k < nsearch; k++ {
 		var h int64
 		switch {
@@ -1311,14 +1395,29 @@ func (c *c15Case) run(tier string) {
 		default:
 			h = int64(r.Intn(12)) - 1
 		}
+		heights = append(heights, h)
+	}
+	if restarts > 0 && profile != 3 {
+		// after a restart: every written height (and one above the last)
+		seen := map[int64]bool{}
+		for _, m := range markers {
+			if !seen[m] && len(seen) < 16 {
+				seen[m] = true
+				heights = append(heights, m)
+			}
+		}
+		heights = append(heights, lastPos+1)
+	}
+	for _, h := range heights {
 		ign := r.Chance(2, 3)
 		obs := c.searchObs(wal, h, ign)
-		// direct oracle (strictly increasing markers): found iff written, reader positioned just after it
+		// direct oracle: found iff written; for a height written once, the reader is positioned just after it
 		if mono && c.whole && (ign || decodable) {
-			pos := -1
+			pos, cnt := -1, 0
 			for i, w := range c.exp {
 				if w.eh != nil && *w.eh == h {
 					pos = i
+					cnt++
 				}
 			}
 			want := "s notfound"
@@ -1332,18 +1431,32 @@ func (c *c15Case) run(tier string) {
 					want = "s found m:" + c.exp[pos+1].digest
 				}
 			}
-			if obs != want {
-				o.Fail(c.step, "search", fmt.Sprintf("height=%d ignore=%v got=[%s] want=[%s]", h, ign, obs, want))
+			got := obs
+			if cnt > 1 { // a repeated non-positive marker: only the found flag is determined
+				want = "s found"
+				if len(got) > len(want) {
+					got = got[:len(want)]
+				}
+			}
+			if got != want {
+				o.Fail(c.step, "search", fmt.Sprintf("height=%d ignore=%v restarts=%d got=[%s] want=[%s]", h, ign, restarts, obs, want))
 			}
 			if pos >= 0 {
 				o.Count("search:found")
 			} else {
 				o.Count("search:absent")
 			}
+			if restarts > 0 {
+				o.Count("search:after-restart")
+			}
 		}
 		c.op(fmt.Sprintf("SE %d %d", h, b2i(ign)), obs)
 	}
-	grp.Close()
+	if started {
+		wal.Stop()
+	} else {
+		grp.Close()
+	}
 	grp.Head.Close()
 
 	// ---- corruption phase on copies of the snapshot
@@ -1476,7 +1589,7 @@ func (c *c15Case) checkTooBig(data []byte, toks []string, k string) {
 	}
 }
 
-func (c *c15Case) repairVariant(eds []c15Edit, pureTruncation bool) {
+func (c *c15Case) repairVariant(eds []c15Edit, pureTruncation bool, exp []c15Written) {
 	o := c.o
 	if c15Abort {
 		return
@@ -1485,8 +1598,14 @@ func (c *c15Case) repairVariant(eds []c15Edit, pureTruncation bool) {
 	c.nvar++
 	dir := filepath.Join(c.tmp, fmt.Sprintf("r%d", c.nvar))
 	os.MkdirAll(dir, 0o700)
+	// exactly the steps of ConsensusState.OnStart: the corrupted WAL stays where it is, is backed up by
+	// copying, and is then repaired in place from the backup
 	src, dst := filepath.Join(dir, "wal.CORRUPTED"), filepath.Join(dir, "wal")
-	os.WriteFile(src, data, 0o600)
+	os.WriteFile(dst, data, 0o600)
+	if cerr := kos.CopyFile(dst, src); cerr != nil {
+		o.Fail(c.step, "harness-copy", cerr.Error())
+		return
+	}
 	var err error
 	func() {
 		defer func() {
@@ -1498,7 +1617,21 @@ func (c *c15Case) repairVariant(eds []c15Edit, pureTruncation bool) {
 		err = repairWalFile(src, dst)
 	}()
 	out, _ := os.ReadFile(dst)
+	// second replay pass over the repaired WAL, through a group reader as catchupReplay does
+	var pass2 []string
+	if g2, gerr := auto.OpenGroup(dst); gerr == nil {
+		if gr, rerr := g2.NewReader(g2.MinIndex()); rerr == nil {
+			pass2 = c15DecodeAll(gr, false)
+			gr.Close()
+		}
+		g2.Close()
+		g2.Head.Close()
+	}
 	os.RemoveAll(dir)
+	if len(pass2) == 0 || pass2[len(pass2)-1] != "eof" {
+		o.Fail(c.step, "repaired-wal-still-corrupt", fmt.Sprintf("edits=[%s] second pass=%v", c15EditsStr(eds), pass2))
+	}
+	c.checkSeq("second pass after repair "+c15EditsStr(eds), pass2, exp, true, false)
 	st := "ok"
 	if err != nil {
 		st = "err"
@@ -1526,7 +1659,7 @@ func (c *c15Case) repairVariant(eds []c15Edit, pureTruncation bool) {
 	if st == "err" {
 		o.Fail(c.step, "repair-error", fmt.Sprint(err))
 	}
-	c.op("XR "+c15EditsStr(eds), fmt.Sprintf("r %s %s", st, c15FP(out)))
+	c.op("XR "+c15EditsStr(eds), fmt.Sprintf("r %s %s | %s", st, c15FP(out), strings.Join(pass2, " ")))
 }
 
 func (c *c15Case) searchVariant(h int64, ign bool, eds []c15Edit) {
@@ -1574,7 +1707,7 @@ func (c *c15Case) corrupt(tier string, profile int) {
 	if profile != 3 {
 		c.variant("g", true, nil, c.exp, c.whole, false)
 	}
-	c.repairVariant(nil, true)
+	c.repairVariant(nil, true, c.exp)
 	if L == 0 {
 		return
 	}
@@ -1643,7 +1776,7 @@ func (c *c15Case) corrupt(tier string, profile int) {
 		}
 		o.Count("variant:truncation")
 		if small || r.Chance(1, 2) {
-			c.repairVariant([]c15Edit{{kind: "t", off: n}}, true)
+			c.repairVariant([]c15Edit{{kind: "t", off: n}}, true, c.exp)
 			o.Count("variant:repair-truncated")
 		}
 	}
@@ -1689,7 +1822,7 @@ func (c *c15Case) corrupt(tier string, profile int) {
 		c.variant(k, !exhaustiveBits && r.Chance(1, 4), ed, c.exp, false, inLen && !exhaustiveBits)
 		o.Count("variant:bitflip")
 		if !exhaustiveBits && r.Chance(1, 4) || exhaustiveBits && b%16 == 0 {
-			c.repairVariant(ed, false)
+			c.repairVariant(ed, false, c.exp)
 			o.Count("variant:repair-bitflip")
 		}
 	}
@@ -1817,7 +1950,7 @@ func (c *c15Case) corrupt(tier string, profile int) {
 			}
 			c.variant(k, cont, eds, exp, false, what == "length-edit" || what == "garbage-suffix")
 		case 1:
-			c.repairVariant(eds, false)
+			c.repairVariant(eds, false, exp)
 		default:
 			var h int64 = int64(r.Intn(10))
 			for _, w := range c.exp {
